@@ -68,7 +68,7 @@ def write_cfg(path, kind, consts, emit):
 
 
 def run_tlc(cfgp, md, workers, timeout, outp=None, extra=None):
-    cmd = ["java", "-Xmx8g", "-XX:+UseParallelGC", "-cp", JAVA_CP, "tlc2.TLC", "-workers", str(workers), "-metadir", md,
+    cmd = ["java", "-Xmx8g", "-XX:+UseParallelGC", "-cp", JAVA_CP, "tlc2.TLC", "-noGenerateSpecTE", "-workers", str(workers), "-metadir", md,
            "-config", cfgp] + (extra or []) + [os.path.join(SPEC, "MCCap.tla")]
     t0 = time.time()
     try:
@@ -293,3 +293,29 @@ def derived_executions(prop, tier, wd, rng):
             lines += suffix(kind, cap, nkeys, c["tick"]) + ["destroy"]
             execs.append(lines)
     return execs
+
+
+# ------------------------------------------------------------------------------------------
+# bonus: inductive invariants with Apalache (unbounded histories for the size / ttl core)
+
+def apalache_bonus(wd):
+    out = []
+    os.makedirs(wd, exist_ok=True)
+    for mod in ("ApaStore", "ApaTtl"):
+        src = os.path.join(SPEC, "apalache", mod + ".tla")
+        res = dict(module=mod, obligations=[])
+        for name, args in (("Init => IndInv", ["--init=Init", "--inv=IndInv", "--length=0"]),
+                           ("IndInv /\\ Next => IndInv'", ["--init=IndInv", "--inv=IndInv", "--length=1"])):
+            t0 = time.time()
+            try:
+                r = sh(["apalache-mc", "check", "--cinit=CInit", "--out-dir=" + os.path.join(wd, "apa-out"),
+                        "--run-dir=" + os.path.join(wd, "apa-run")] + args + [src], timeout=600, cwd=wd)
+                ok = "EXITCODE: OK" in r.stdout
+                err = "The outcome is: Error" in r.stdout
+            except Exception as e:      # timeout or missing tool: a bonus, never a failure
+                ok, err = False, False
+            res["obligations"].append(dict(obligation=name, discharged=ok, counterexample=err, wall_s=round(time.time() - t0, 1)))
+        out.append(res)
+    shutil.rmtree(os.path.join(wd, "apa-out"), ignore_errors=True)
+    shutil.rmtree(os.path.join(wd, "apa-run"), ignore_errors=True)
+    return out
